@@ -8,6 +8,7 @@ import (
 	"fmt"
 	"math/big"
 	"sort"
+	"unicode/utf8"
 
 	"verifmc/node"
 
@@ -238,6 +239,23 @@ func validRef(blk *types.Block, nowMs int64, si *stInfo) (bool, string) {
 		if tx.ChainID() != node.ChainID {
 			return false, "tx of another chain"
 		}
+		if why := malformed(tx); why != "" {
+			return false, "malformed tx: " + why
+		}
+	}
+	for _, tx := range blk.Txs {
+		if tx.Type() == params.BoxTx {
+			if box, err := types.GetBox(tx.Data()); err == nil {
+				for _, s := range box.SubTxList {
+					if s.Type() == params.BoxTx {
+						return false, "malformed tx: box inside a box"
+					}
+					if s.Expiration() < tx.Expiration() {
+						return false, "malformed tx: a boxed transaction expires before its box"
+					}
+				}
+			}
+		}
 	}
 	// deputy list: only on snapshot blocks, and there exactly the reference list of the parent's state
 	if isSnapshotHeight(blk.Height()) {
@@ -295,4 +313,31 @@ func validRef(blk *types.Block, nowMs int64, si *stInfo) (bool, string) {
 		}
 	}
 	return true, ""
+}
+
+// malformed: the field limits of the protocol a packaged transaction has to respect.
+func malformed(tx *types.Transaction) string {
+	if len(tx.Message()) > 1024 {
+		return "message longer than 1024 bytes"
+	}
+	if !utf8.ValidString(tx.Message()) {
+		return "message is not valid UTF-8"
+	}
+	if n := tx.ToName(); n != "" {
+		if len(n) > 100 {
+			return "recipient name longer than 100 characters"
+		}
+		for _, r := range n {
+			if !(r >= 'a' && r <= 'z' || r >= 'A' && r <= 'Z' || r >= '0' && r <= '9' || r == '_' || r == '-' || r == '.') {
+				return "recipient name with an illegal character"
+			}
+		}
+	}
+	if (tx.Type() == params.OrdinaryTx || tx.Type() == params.VoteTx) && tx.To() == nil {
+		return "transfer / vote without a recipient"
+	}
+	if tx.Amount().Sign() < 0 {
+		return "negative amount"
+	}
+	return ""
 }
